@@ -48,7 +48,9 @@ def _special_lengths():
 
 def plan(tier, seed):
     units = []
-    flavours = ['asan', 'asan-small'] if tier == 'quick' else ['asan', 'asan-small', 'asan-sm3sse']
+    # every supported build configuration in both tiers: the SSE variant of SM3 replaces src/sm3.c wholesale, so its padding
+    # and buffering code is separate code (quick limits that build to the SM3-based interfaces)
+    flavours = ['asan', 'asan-small', 'asan-sm3sse']
     dense = 300 if tier == 'quick' else 4200
     nchunks = 4 if tier == 'quick' else 16
     kreps = 1 if tier == 'quick' else 12
@@ -58,6 +60,8 @@ def plan(tier, seed):
                 # configuration axis matters for the code that differs between builds
                 if fl == 'asan-sm3sse':
                     continue
+            if fl == 'asan-sm3sse' and tier == 'quick' and alg != 'sm3':
+                continue
             for c in range(nchunks):
                 units.append({'kind': 'hash', 'alg': alg, 'flavour': fl, 'lo': c, 'step': nchunks, 'dense': dense,
                               'weight': 2})
